@@ -1,7 +1,7 @@
 (* Properties_C03.v — property C03: a time step advances every node by the documented integration law.
    Only statements; every proof is `exact <lemma of IntegratorProofs.v>`.  Model: Integrator.v at R. *)
 From Coq Require Import Reals ZArith Bool List Lia Lra.
-From SC Require Import Num Vec3 VecR Integrator IntegratorSpec IntegratorProofs.
+From SC Require Import Num Vec3 VecR Integrator Integrator_gen IntegratorSpec IntegratorProofs.
 Import ListNotations.
 Local Open Scope R_scope.
 
@@ -95,3 +95,26 @@ Example wf_witness :
               [mknode true 0%nat (mkv 0 0 0) (mkv 1 0 0) (mkv 0 1 0) (Some 1%nat) [];
                mknode true 1%nat (mkv 1 0 0) (mkv 0 0 0) (mkv 0 0 1) (Some 0%nat) []] 0).
 Proof. exact wf_example. Qed.
+
+(* 0. THE TIE TO THE SOURCE.  Integrator_gen.v is regenerated from src/time_integration/time_integration.cpp on every run
+      (harness/translate_integrator.py): the per-node update blocks of update_nodes_positions, for contact models 0 and 1 and
+      both dynamic models, executed symbolically statement by statement.  They are the hand-written upd_dyn / upd_over /
+      upd_pair about which the theorems above speak, for every number type (so also for the extracted binary64 instance);
+      the guards around the blocks (static cells and free slots skipped, has_value, c1->get_local_id() > c2_id without an
+      else-branch, simulation_time_ += dt_ once) are checked by the translator, which fails closed. *)
+Theorem integrator_model_is_what_the_source_says :
+  (integrator_translation_ok = true :> bool) /\
+  (forall (T : Type) (N : Num T) dt damping m (n : @inode T),
+     single0_dyn_gen N dt damping m n = upd_single N false dt damping m n /\
+     single0_over_gen N dt damping m n = upd_single N true dt damping m n /\
+     single1_dyn_gen N dt damping m n = upd_single N false dt damping m n /\
+     single1_over_gen N dt damping m n = upd_single N true dt damping m n) /\
+  (forall (T : Type) (N : Num T) dt damping m1 m2 (n1 n2 : @inode T),
+     pair1_dyn_gen N dt damping m1 m2 n1 n2 = upd_pair N false dt damping m1 m2 n1 n2 /\
+     pair1_over_gen N dt damping m1 m2 n1 n2 = upd_pair N true dt damping m1 m2 n1 n2).
+Proof.
+  split; [reflexivity|]. split.
+  - intros; split; [reflexivity|]. split; [reflexivity|]. split; reflexivity.
+  - intros; split; reflexivity.
+Qed.
+Print Assumptions integrator_model_is_what_the_source_says.
